@@ -11,7 +11,7 @@
 use samyama::graph::{EdgeId, EdgeType, GraphStore, IsolationLevel, Label, NodeId, PropertyMap, PropertyValue};
 use samyama::query::{parse_query, Query, QueryExecutor, Value as QV};
 use serde_json::{json, Value};
-use std::collections::{BTreeMap, BTreeSet};
+use std::collections::BTreeMap;
 use std::sync::atomic::{AtomicU64, Ordering};
 use std::sync::Mutex;
 use svmc::engine::ctx::guarded;
@@ -704,7 +704,9 @@ impl<'a> M<'a> {
                     "wrong_value"
                 };
                 if v < cv {
-                    let sig = format!("hist:node:{opn}:{sym}");
+                    // a delete may only ever touch the deleted node's own history
+                    let other = matches!(op, Op::DeleteNode(n) if *n != id);
+                    let sig = format!("hist:node:{opn}:{sym}{}", if other { "_other_node" } else { "" });
                     let msg = format!("after {op:?} at current version {cv}: get_node_at_version(node {id}, {v}) gives p={got_s}; the versioned map (state as of version {v}) says {want_s}");
                     if self.mismatch(r, vio, sig, msg, quiet) {
                         r.overrides.insert(('n', id, v), got_s);
@@ -872,6 +874,3 @@ pub fn replay(ctx: &svmc::Ctx, m: &M, p: &std::path::Path) {
         println!("replay: no disagreement");
     }
 }
-
-#[allow(dead_code)]
-pub fn unused(_: BTreeSet<u8>) {}
